@@ -616,7 +616,12 @@ impl TransportManager {
         let address_record = AddressRecord::from_multiaddr(address)
             .ok_or(Error::AddressError(AddressError::PeerIdMissing))?;
 
-        if self.listen_addresses.read().contains(address_record.as_ref()) {
+        // The node's own listen addresses must not be dialed nor remembered for a remote peer,
+        // regardless of the peer ID the address carries. This is the same check that
+        // `add_known_address` applies.
+        if self.listen_addresses.read().contains(address_record.as_ref())
+            || self.transport_manager_handle.is_local_address(address_record.as_ref())
+        {
             return Err(Error::TriedToDialSelf);
         }
 
@@ -627,6 +632,15 @@ impl TransportManager {
             .next()
             .ok_or_else(|| Error::TransportNotSupported(address_record.address().clone()))?
         {
+            // Unspecified addresses are not dialable, `add_known_address` refuses them as well.
+            Protocol::Ip4(ip) if ip.is_unspecified() =>
+                return Err(Error::TransportNotSupported(
+                    address_record.address().clone(),
+                )),
+            Protocol::Ip6(ip) if ip.is_unspecified() =>
+                return Err(Error::TransportNotSupported(
+                    address_record.address().clone(),
+                )),
             Protocol::Ip4(_) | Protocol::Ip6(_) => {}
             Protocol::Dns(_) | Protocol::Dns4(_) | Protocol::Dns6(_) => {}
             transport => {
@@ -713,13 +727,18 @@ impl TransportManager {
 
             let context = peers.entry(remote_peer_id).or_default();
 
-            // Keep the provided record around for possible future dials.
-            context.addresses.insert(address_record.clone());
-
             // Check if dialing is possible before handing the address to the transport.
             match context.state.can_dial() {
-                StateDialResult::AlreadyConnected => return Err(Error::AlreadyConnected),
-                StateDialResult::DialingInProgress => return Ok(()),
+                StateDialResult::AlreadyConnected => {
+                    // Keep the provided record around for possible future dials.
+                    context.addresses.insert(address_record.clone());
+                    return Err(Error::AlreadyConnected);
+                }
+                StateDialResult::DialingInProgress => {
+                    // Keep the provided record around for possible future dials.
+                    context.addresses.insert(address_record.clone());
+                    return Ok(());
+                }
                 StateDialResult::Ok => {}
             };
 
@@ -732,6 +751,11 @@ impl TransportManager {
                     address_record.address().clone(),
                 ))?
                 .dial(connection_id, address_record.address().clone())?;
+
+            // Keep the provided record around for possible future dials. The address is stored
+            // only after the transport has accepted it: an address the transport cannot parse
+            // must not be remembered.
+            context.addresses.insert(address_record.clone());
 
             // Dialing the address will succeed because `context.state.can_dial()` returned `Ok`.
             context.state.dial_single_address(dial_record);
